@@ -28,12 +28,12 @@ import (
 
 // ---------- populate ops (a subset of the model's op language) ----------
 type c40Member struct {
-	ID      string  `json:"id"`
-	Client  string  `json:"client"`
+	ID      string   `json:"id"`
+	Client  string   `json:"client"`
 	Subs    []string `json:"subs"`
-	Topic   string  `json:"topic"`
-	Parts   []int32 `json:"parts"`
-	Session int32   `json:"session"`
+	Topic   string   `json:"topic"`
+	Parts   []int32  `json:"parts"`
+	Session int32    `json:"session"`
 }
 type c40Op struct {
 	K       string      `json:"k"` // ct cp uo co pg uc
